@@ -26,6 +26,38 @@ class AnalysisError(Exception):
     instance floor not met).  Never a pass, never a violation: exit status 2."""
 
 
+class _Normalise(ast.NodeTransformer):
+    """Type annotations carry no run-time behaviour the rules care about: `x: T = v` is analysed as `x = v`, a bare `x: T`
+    as `pass`, and parameter / return annotations are dropped (line numbers are kept)."""
+
+    def visit_AnnAssign(self, node):
+        self.generic_visit(node)
+        if node.value is None:
+            return ast.copy_location(ast.Pass(), node)
+        new = ast.Assign(targets=[node.target], value=node.value, type_comment=None)
+        return ast.copy_location(new, node)
+
+    def _fn(self, node):
+        self.generic_visit(node)
+        node.returns = None
+        for a in node.args.posonlyargs + node.args.args + node.args.kwonlyargs:
+            a.annotation = None
+        if node.args.vararg:
+            node.args.vararg.annotation = None
+        if node.args.kwarg:
+            node.args.kwarg.annotation = None
+        return node
+
+    visit_FunctionDef = _fn
+    visit_AsyncFunctionDef = _fn
+
+
+def normalise_tree(tree):
+    tree = _Normalise().visit(tree)
+    ast.fix_missing_locations(tree)
+    return tree
+
+
 class Repo:
     def __init__(self, root):
         self.root = os.path.abspath(root)
@@ -45,6 +77,7 @@ class Repo:
                 self.tree[rel] = ast.parse(self.text[rel], filename=rel)
             except SyntaxError as e:
                 raise AnalysisError('cannot parse {}: {}'.format(rel, e))
+            self.tree[rel] = normalise_tree(self.tree[rel])
             for node in ast.walk(self.tree[rel]):
                 for child in ast.iter_child_nodes(node):
                     child._parent = node
